@@ -255,6 +255,15 @@ theorem writer_and_chain_reset_complete :
   decide
 
 open SdnsVerif.Gen.C10 in
+/-- the edns writer — pooled on the decoded path, a JOB-OWNED slot on the
+strict path — is wiped whole (`*rw = ResponseWriter{}`) by the deferred
+cleanup of both entries, unconditionally: no per-request field (client cookie
+bytes, DO, NSID, keepalive …) survives into the slab's next request -/
+theorem edns_writer_slot_wiped :
+    edns_servewire_slot_unreset = [] ∧ edns_servedns_slot_unreset = [] := by
+  decide
+
+open SdnsVerif.Gen.C10 in
 /-- the capacity-pinning slice expressions and the copy / id rewrite of the
 shared lookup are present in the tree -/
 theorem pinning_and_copy_shapes_present :
